@@ -4,6 +4,7 @@
 use vstd::prelude::*;
 use bnum::{BUint, BInt};
 use super::limbs::*;
+use vstd::std_specs::ops::*;
 verus! {
 
 /// 2^(64 N): the modulus of BUint<N> arithmetic
@@ -28,5 +29,40 @@ pub assume_specification<const N: usize> [ BUint::<N>::bit ] (a: &BUint<N>, i: u
     ensures i == 0 ==> r == (uv(*a) % 2 == 1);
 pub assume_specification<const N: usize> [ <BUint<N> as core::cmp::PartialEq>::eq ] (a: &BUint<N>, b: &BUint<N>) -> (r: bool)
     ensures r == (uv(*a) == uv(*b));
+
+
+pub assume_specification<const N: usize> [ BUint::<N>::from_digits ] (d: [u64; N]) -> (r: BUint<N>)
+    ensures udigits(r) == d@, uv(r) == limbs(d@);
+
+/// `Num::low_u64` for BUint: the least significant digit
+pub assume_specification<const N: usize> [ <BUint<N> as crate::arith::Num>::low_u64 ] (a: &BUint<N>) -> (r: u64)
+    ensures r == udigits(*a)[0], N >= 1 ==> r as nat == uv(*a) % W();
+
+
+/// `&BUint >> u32` through vstd's operator specs (bnum panics when the shift exceeds the width in the
+/// overflow-checked profile: that is the call-site obligation `shr_req`)
+#[verifier::external_body]
+pub proof fn axiom_buint_shr_ref<'a, const N: usize>(a: &'a BUint<N>, s: u32)
+    ensures
+        <&'a BUint<N> as vstd::std_specs::ops::ShrSpec<u32>>::shr_req(a, s) == ((s as int) < 64 * N),
+        <&'a BUint<N> as vstd::std_specs::ops::ShrSpec<u32>>::obeys_shr_spec(),
+        (s as int) < 64 * N ==> uv(<&'a BUint<N> as vstd::std_specs::ops::ShrSpec<u32>>::shr_spec(a, s)) == uv(*a) / (vstd::arithmetic::power2::pow2(s as nat)),
+{}
+
+#[verifier::external_body]
+pub proof fn axiom_buint_shr_ref_i32<'a, const N: usize>(a: &'a BUint<N>, s: i32)
+    ensures
+        <&'a BUint<N> as vstd::std_specs::ops::ShrSpec<i32>>::shr_req(a, s) == (0 <= s && (s as int) < 64 * N),
+        <&'a BUint<N> as vstd::std_specs::ops::ShrSpec<i32>>::obeys_shr_spec(),
+        0 <= s && (s as int) < 64 * N ==> uv(<&'a BUint<N> as vstd::std_specs::ops::ShrSpec<i32>>::shr_spec(a, s)) == uv(*a) / (vstd::arithmetic::power2::pow2(s as nat)),
+{}
+
+/// vstd's array clone yields `cloned` elements; for u64 that is equality
+pub proof fn lemma_array_clone_u64<const N: usize>(a: [u64; N], b: [u64; N])
+    requires forall|i: int| 0 <= i < N ==> vstd::pervasive::cloned::<u64>(#[trigger] a@[i], b@[i])
+    ensures a@ == b@
+{
+    assert(a@ =~= b@);
+}
 
 } // verus!
